@@ -8,6 +8,7 @@ depend on any generator at all.  Small fields (<= 24 entries) are, half of the t
 by entry by Hypothesis itself.
 """
 import math
+import os
 
 import numpy as np
 from hypothesis import strategies as st
@@ -72,6 +73,8 @@ def grids(draw, classes=GRIDS, nmax=4, nmax3=3, nmin=1, spacings=('uniform', 'ra
     name = draw(st.sampled_from(list(classes)))
     kinds = AXES[name]
     nd = len(kinds)
+    if os.environ.get('PBT_TIER') == 'thorough':       # thorough tier: larger grids (every per-cell-count branch plus interior-only cells)
+        nmax, nmax3 = nmax + 2, nmax3 + 1
     top = nmax3 if nd == 3 else nmax
     faces = []
     sp_all = draw(st.sampled_from(list(spacings))) if same_spacing else None
